@@ -48,6 +48,11 @@ func vfAssume(c bool) {
 func vfAssert(c bool, id string) {
 	if !c {
 		fmt.Fprintf(os.Stdout, "VFASSERT-FAIL: %s\n", id)
+		if len(id) > 2 && id[:2] == "F-" {
+			// an assertion tagged with a recorded finding: the run goes on, so that what the
+			// model singled out further down can be confirmed or refuted
+			return
+		}
 		panic(vfAssertFailure{id})
 	}
 }
